@@ -255,7 +255,7 @@ def encoder_truncation(chk, zb, zvt, used):
             chk.require(ok, "C01-f/no-encoder-truncation", "%s %s" % (b.id, s["detail"]),
                         "the encoder narrows a value derived from its input without a guard (%s): what the caller put in is silently "
                         "altered" % why[:140], why[:100], s.get("sp"), key="C01-f/no-encoder-truncation|%s|%s" % (b.id, s["detail"]))
-    chk.floor("encoder cast sites", n, 12)
+    chk.floor("encoder cast sites", n, 4)
 
 
 def frames(chk, zb, zvt):
@@ -483,4 +483,4 @@ def run(ctx, chk):
     from report import Sub
     sub = Sub(chk, "C01-g", lambda r: r.startswith(("C16-b/", "C16-d/", "C16-e/", "C16-f/")))
     rules_c16.run(ctx, sub)
-    chk.floor("length-style agreement obligations (shared with C16)", sub.count, 35)
+    chk.floor("length-style agreement obligations (shared with C16)", sub.count, 20)
